@@ -335,3 +335,79 @@ Section FloatRoundTrip.
   Qed.
 End FloatRoundTrip.
 
+
+(* ---- literals outside the lexical space of xs:float / xs:double are rejected before float() sees them *)
+Lemma opt_sign_shape s neg u : opt_sign s = (neg, u) ->
+  exists sg, s = sg ++ u /\ (sg = [] \/ sg = ["-"%char] \/ sg = ["+"%char]).
+Proof.
+  unfold opt_sign. destruct s as [|c r]; [intros [= <- <-]; exists []; auto|].
+  destruct (ceq c "-") eqn:C1; [apply ceq_eq in C1; subst; intros [= <- <-]; exists ["-"%char]; auto|].
+  destruct (ceq c "+") eqn:C2; [apply ceq_eq in C2; subst; intros [= <- <-]; exists ["+"%char]; auto|].
+  intros [= <- <-]. exists []. auto.
+Qed.
+Lemma sign_facts sg : sg = [] \/ sg = ["-"%char] \/ sg = ["+"%char] ->
+  matches (opt (oneof "+-")) sg = true /\ no_ws sg = true.
+Proof. intros [->|[->| ->]]; split; reflexivity. Qed.
+Lemma scan_mantissa_shape u ip fp r1 : scan_mantissa u = (ip, fp, r1) -> mant_ok ip fp = true ->
+  exists m, u = m ++ r1 /\ matches unsigned_dec_re m = true /\ no_ws m = true.
+Proof.
+  unfold scan_mantissa. destruct (span is_digit u) as [ip' r] eqn:Sp. destruct (span_spec _ _ _ _ Sp) as (E & Hip & _).
+  destruct r as [|c t].
+  - intros [= <- <- <-] Hm. cbn in Hm. exists ip'. split; [exact E|]. split; [|apply digits_no_ws, Hip].
+    unfold unsigned_dec_re. apply m_altl. rewrite <- (app_nil_r ip'). apply m_cat; [|reflexivity].
+    apply m_plus_cls; [destruct ip'; [discriminate|discriminate]|exact Hip].
+  - destruct (ceq c ".") eqn:C.
+    + apply ceq_eq in C. subst c. destruct (span is_digit t) as [f t'] eqn:Sf. destruct (span_spec _ _ _ _ Sf) as (E2 & Hf & _).
+      intros [= <- <- <-] Hm. cbn [mant_ok] in Hm. exists (ip' ++ "."%char :: f).
+      split; [rewrite E, E2, <- app_assoc; reflexivity|]. split.
+      * unfold unsigned_dec_re. destruct ip' as [|i0 i'].
+        -- cbn [app]. apply m_altr, m_cons_ch. apply m_plus_cls; [|exact Hf]. destruct f; [discriminate|discriminate].
+        -- apply m_altl. apply m_cat; [apply m_plus_cls; [discriminate|exact Hip]|]. apply m_opt_some, m_cons_ch, m_star_cls, Hf.
+      * rewrite no_ws_app, (digits_no_ws _ Hip), no_ws_cons, (digits_no_ws _ Hf). reflexivity.
+    + intros [= <- <- <-] Hm. cbn in Hm. exists ip'. split; [exact E|]. split; [|apply digits_no_ws, Hip].
+      unfold unsigned_dec_re. apply m_altl. rewrite <- (app_nil_r ip'). apply m_cat; [|reflexivity].
+      apply m_plus_cls; [destruct ip'; [discriminate|discriminate]|exact Hip].
+Qed.
+Lemma exp_ok_shape r1 : exp_ok r1 = true ->
+  matches (opt (cats [oneof "Ee"; opt (oneof "+-"); plus dig])) r1 = true /\ no_ws r1 = true.
+Proof.
+  unfold exp_ok. destruct r1 as [|c t]; [split; reflexivity|].
+  intros H. apply andb_true_iff in H as [Hc H].
+  destruct (opt_sign t) as [ng t1] eqn:Os. destruct (opt_sign_shape _ _ _ Os) as (sg & Et & Hsg).
+  destruct (span is_digit t1) as [ds t2] eqn:Sp. destruct (span_spec _ _ _ _ Sp) as (E1 & Hd & _).
+  apply andb_true_iff in H as [Hn Hz]. destruct t2; [|discriminate]. rewrite app_nil_r in E1. subst t1.
+  destruct (sign_facts sg Hsg) as [Ms Ns].
+  assert (Mc : matches (oneof "Ee") [c] = true /\ is_xsd_ws c = false).
+  { apply orb_true_iff in Hc as [Hc|Hc]; apply ceq_eq in Hc; subst c; split; reflexivity. }
+  destruct Mc as [Mc Wc]. split.
+  - apply m_opt_some. cbn [cats]. rewrite Et. change (c :: sg ++ ds) with ([c] ++ sg ++ ds).
+    apply m_cat; [exact Mc|]. apply m_cat; [exact Ms|]. apply m_plus_cls; [destruct ds; [discriminate|discriminate]|exact Hd].
+  - rewrite Et, no_ws_cons, Wc, no_ws_app, Ns, (digits_no_ws _ Hd). reflexivity.
+Qed.
+Lemma float_guard_valid s c : float_guard s = Some c -> valid_xsd_float s = true.
+Proof.
+  unfold float_guard. destruct (strip_spec is_xsd_ws s) as (w1 & w2 & Es & H1 & H2).
+  set (core := strip is_xsd_ws s) in *.
+  assert (Fin : no_ws core = true -> matches float_re core = true -> valid_xsd_float s = true).
+  { intros N M. unfold valid_xsd_float. rewrite Es, (ws_collapse_core w1 core w2 H1 N H2). exact M. }
+  destruct (str_eqb core (L "NaN")) eqn:EN.
+  - intros _. apply str_eqb_eq in EN. rewrite EN in *. apply Fin; vm_compute; reflexivity.
+  - destruct (opt_sign core) as [neg u] eqn:Os. destruct (opt_sign_shape _ _ _ Os) as (sg & Ec & Hsg).
+    destruct (sign_facts sg Hsg) as [Ms Ns].
+    destruct (str_eqb u (L "INF")) eqn:EI.
+    + intros _. apply str_eqb_eq in EI. subst u. apply Fin; rewrite Ec.
+      * rewrite no_ws_app, Ns. reflexivity.
+      * unfold float_re. cbn [alts]. apply m_altr, m_altl. apply m_cat; [exact Ms|vm_compute; reflexivity].
+    + destruct (scan_mantissa u) as [[ip fp] r1] eqn:Sm.
+      destruct (mant_ok ip fp && exp_ok r1) eqn:K; [|discriminate]. intros _.
+      apply andb_true_iff in K as [Km Ke].
+      destruct (scan_mantissa_shape _ _ _ _ Sm Km) as (m & Eu & Mm & Nm). destruct (exp_ok_shape _ Ke) as [Me Ne].
+      apply Fin; rewrite Ec, Eu.
+      * rewrite !no_ws_app, Ns, Nm, Ne. reflexivity.
+      * unfold float_re. cbn [alts]. apply m_altl. cbn [cats]. apply m_cat; [exact Ms|]. apply m_cat; assumption.
+Qed.
+Lemma float_reject_literal s : valid_xsd_float s = false -> parse_float_class s = Err ValueError.
+Proof.
+  intros H. unfold parse_float_class. destruct (float_guard s) as [c|] eqn:G; [|reflexivity].
+  apply float_guard_valid in G. congruence.
+Qed.
